@@ -404,8 +404,10 @@ theorem baryN_sound (verts : List (List K)) (p lam : List K) (h : baryN verts p 
 
 /-- **The executed interpolant is exact on affine functions, every dimension `d`, every simplex**: whenever
 `linearSimplex` answers (it refuses only malformed / degenerate simplices), the answer for the samples of an affine
-function is the affine function at `p` — `barycentric_affine_exact` instantiated at the executed definition. -/
-theorem linearSimplex_affine_exact (verts : List (List K)) (c0 : K) (c p : List K) (v : K)
+function is the affine function at `p` — `barycentric_affine_exact` instantiated at the executed definition.
+`_partial`: for `d ≥ 4` it is not proved that the function *does* answer on every non-degenerate simplex (Cramer's rule for
+Laplace-expanded determinants of arbitrary size); for `d = 1, 2, 3` the unconditional statements follow below. -/
+theorem linearSimplex_affine_exact_partial (verts : List (List K)) (c0 : K) (c p : List K) (v : K)
     (hc : c.length = p.length) (h : linearSimplex verts (verts.map (affine c0 c)) p = some v) :
     v = affine c0 c p := by
   simp only [linearSimplex, Option.map_eq_some_iff] at h
